@@ -341,3 +341,180 @@ def tsa(kinds=("aug", "assign")):
   sc.info = {"kinds": list(kinds), "lock_attrs": [k for k, v in attrs.items() if isinstance(v, M.MRLock)],
              "shared_attrs": sorted(written), "texts": texts, "lock_names": ["desc." + k for k, v in attrs.items() if isinstance(v, M.MRLock)]}
   return sc
+
+
+# ---- stop / cancel against the consumer and a timer thread (C12, C11 'for good', C31) ------------------------------------
+class WatchDeque(M.MDeque):
+  """pending-event deque that records, in ghost state, insertions made by the timer thread after the watched call
+  (stop / cancel) has returned: fresh = the timer's last look at its run flag was after the return as well (nothing can excuse
+  that post), stale = it looked before the return and posts after (the check-then-post window)"""
+
+  def __init__(self, name, maxlen, timer_tids, items=()):
+    super().__init__(name, maxlen, items)
+    self.timer_tids = timer_tids
+
+  def apply(self, B, st, op, args, tid):
+    outs = super().apply(B, st, op, args, tid)
+    if op in ("append", "appendleft") and tid in self.timer_tids:
+      ret = B.eq(st["g.returned"], B.const(1))
+      fresh = B.eq(st["g.checked_after.%d" % tid], B.const(1))
+      res = []
+      for (c, kind, r, up) in outs:
+        up = dict(up)
+        up["g.late_fresh"] = B.ite(B.and_(ret, fresh), B.const(1), st["g.late_fresh"])
+        up["g.late_stale"] = B.ite(B.and_(ret, B.not_(fresh)), B.const(1), st["g.late_stale"])
+        up["g.posts.%d" % tid] = B.add(st["g.posts.%d" % tid], B.const(1))
+        res.append((c, kind, r, up))
+      return res
+    return outs
+
+
+class WatchEvent(M.MEvent):
+  """run flag of a timed source: every is_set by its timer thread records whether the watched call had returned by then"""
+
+  def __init__(self, name, flag, timer_tid):
+    super().__init__(name, flag)
+    self.timer_tid = timer_tid
+
+  def apply(self, B, st, op, args, tid):
+    outs = super().apply(B, st, op, args, tid)
+    if op == "is_set" and tid == self.timer_tid:
+      return [(c, k, r, dict(up, **{"g.checked_after.%d" % tid: st["g.returned"]})) for (c, k, r, up) in outs]
+    return outs
+
+
+def nested_def(outer, name):
+  """AST of a function defined inside `outer` (re-read from the source)"""
+  import inspect
+  tree = ast.parse(textwrap.dedent(inspect.getsource(outer)))
+  for n in ast.walk(tree):
+    if isinstance(n, ast.FunctionDef) and n.name == name and n is not tree.body[0]:
+      return n, outer.__code__.co_firstlineno - 1
+  raise TranslationError("no nested function %s in %s" % (name, outer.__qualname__))
+
+
+def stopping(action="stop", handler_stop=False, pending=0, sources=1, times=2, deferred=True, capacity=3, other_source=False, poster=False):
+  """action in {'stop', 'cancel_event', 'cancel_events'} performed by thread 0 against the consumer (run_event) and `sources`
+  timer threads (post_event_thread_runner) of one active object.
+  handler_stop: stop() is called from the handler of the first pending event instead (thread 0 then only posts nothing)."""
+  import miros.activeobject as ao
+  sc = Scenario("stopping")
+  sig = signals_ns(sc)
+  EV = RecordClass("event", ["signal", "signal_name"])
+  A = sc.strings.code("A")
+  Bn = sc.strings.code("B")
+  stop_sig = sig.attrs["STOP_ACTIVE_OBJECT_SIGNAL"]
+  ev_timer = [EV.new(signal=SK(11, 11), signal_name=SK(A, "A")), EV.new(signal=SK(12, 12), signal_name=SK(Bn, "B"))]
+  pend = [EV.new(signal=SK(13, 13), signal_name=SK(sc.strings.code("P%d" % i), "P%d" % i)) for i in range(pending)]
+  n_threads_before_timers = 2
+  timer_tids = [n_threads_before_timers + i for i in range(sources)]
+  Q = sc.add(M.MQueue("Q", capacity, count=len(pend)))
+  D = sc.add(WatchDeque("D", capacity, timer_tids, items=[e.rid for e in pend]))
+  sc.elem_typ["D"] = ("rec", EV)
+  task_event = sc.add(M.MEvent("task_event", 1))
+  fabric_event = sc.add(M.MEvent("fabric_event", 1))
+  other_task_event = sc.add(M.MEvent("other.task_event", 1))
+  thread = sc.add(M.MThread("ao.thread", prog=1, state=1))
+  sc.ghost.update({"g.returned": 0, "g.late_fresh": 0, "g.late_stale": 0, "g.late_dispatch": 0, "g.dispatched": 0, "g.handler_stopped": 0})
+  # tracked sources
+  PE = RecordClass("PostedEvent", ["signal_name", "task_run_event", "uuid"])
+  SPEC = RecordClass("PostedEventThreadSpec", ["event", "queue_type", "total_times", "deferred", "period", "task_run_event"])
+  flags, recs, specs = [], [], []
+  for i in range(sources):
+    tt = timer_tids[i]
+    sc.ghost["g.checked_after.%d" % tt] = 0
+    sc.ghost["g.posts.%d" % tt] = 0
+    f = sc.add(WatchEvent("source%d.run" % i, 1, tt))
+    flags.append(f)
+    name = SK(A, "A") if (i == 0 or not other_source) else SK(Bn, "B")
+    recs.append(PE.new(signal_name=name, task_run_event=SO(f), uuid=SK(20 + i, 20 + i)))
+    specs.append(SPEC.new(event=ev_timer[0 if (i == 0 or not other_source) else 1], queue_type=SK(sc.strings.code("fifo"), "fifo"), total_times=SK(times, times),
+                          deferred=SK(1 if deferred else 0, deferred), period=SK(1, 1), task_run_event=SO(f)))
+  T = sc.add(M.MDeque("tracked", capacity, items=[r.rid for r in recs]))
+  sc.elem_typ["tracked"] = ("rec", PE)
+  sleep = sc.add(M.MSleep("time"))
+  sc.modules["time"] = SNs({"sleep": SI(lambda comp, a, k: comp.op(sleep, "sleep", [], want=0))}, "time")
+  sc.globals["time"] = sc.modules["time"]
+  ld = PyObj(ao.LockingDeque, {"deque": D, "locking_queue": Q}, "locking_deque")
+  obj = PyObj(ao.ActiveObject, {"queue": ld, "locking_deque": ld, "instrumented": False, "live_spy": False, "live_trace": False,
+                                "activeobject_task_event": task_event, "fabric_task_event": fabric_event, "thread": thread,
+                                "posted_events_queue": T}, "active_object")
+  sc.class_intrinsics.append((ao.HsmEvent, lambda comp, a, k: EV.intern(signal=k["signal"], signal_name=SK(sc.strings.code("STOP"), "STOP"))))
+
+  def set_ghost(name, value):
+    def intr(comp, args, kwargs):
+      comp.ghost(lambda B, st, tid: {name: B.const(value)}, name)
+      return SK(NONE, None)
+    return SI(intr)
+
+  def ghost_dispatch(comp, args, kwargs):
+    def fn(B, st, tid):
+      late = B.or_(B.eq(st["g.returned"], B.const(1)), B.eq(st["g.handler_stopped"], B.const(1)))
+      return {"g.late_dispatch": B.ite(late, B.const(1), st["g.late_dispatch"]), "g.dispatched": B.add(st["g.dispatched"], B.const(1))}
+    comp.ghost(fn, "dispatch")
+    return SK(NONE, None)
+  stub_src = """
+  def dispatch_stub(self, e):
+    ghost_dispatch(e)
+    if HANDLER_STOP:
+      if e is FIRST:
+        self.stop()
+        mark_handler_stopped()
+  """
+
+  def dispatch_intrinsic(comp, self_val, args, kwargs):
+    e = kwargs.get("e", args[0] if args else None)
+    clo = {"ghost_dispatch": SI(ghost_dispatch), "HANDLER_STOP": SK(1 if handler_stop else 0, handler_stop),
+           "FIRST": pend[0] if pend else SK(NONE, None), "mark_handler_stopped": set_ghost("g.handler_stopped", 1)}
+    return comp.call_function(SF(node=driver(stub_src, "dispatch_stub"), closure=clo, qualname="scenario.dispatch_stub", globs={}), [self_val, e], {})
+  sc.method_intrinsics[("HsmWithQueues", "dispatch")] = dispatch_intrinsic
+  main_src = """
+  def do_stop(ao):
+    ao.stop()
+    returned()
+
+  def do_cancel_event(ao, uuid):
+    ao.cancel_event(uuid)
+    returned()
+
+  def do_cancel_events(ao, e):
+    ao.cancel_events(e)
+    returned()
+
+  def do_nothing(ao):
+    pass
+
+  def consumer_main(ao, task_event, fabric_event, queue, thread):
+    ao.run_event(task_event, fabric_event, queue)
+    thread_finished()
+  """
+  clo = {"returned": set_ghost("g.returned", 1)}
+  c = Compiler(sc, 0, "caller")
+  if handler_stop:
+    c.call_function(SF(node=driver(main_src, "do_nothing"), closure=clo, qualname="scenario.do_nothing", globs={}), [SP(obj)], {})
+  elif action == "stop":
+    c.call_function(SF(node=driver(main_src, "do_stop"), closure=clo, qualname="scenario.do_stop", globs={}), [SP(obj)], {})
+  elif action == "cancel_event":
+    c.call_function(SF(node=driver(main_src, "do_cancel_event"), closure=clo, qualname="scenario.do_cancel_event", globs={}), [SP(obj), SK(20, 20)], {})
+  else:
+    c.call_function(SF(node=driver(main_src, "do_cancel_events"), closure=clo, qualname="scenario.do_cancel_events", globs={}), [SP(obj), ev_timer[0]], {})
+  sc.programs.append(c.finish())
+  c = Compiler(sc, 1, "consumer")
+
+  def thread_finished(comp, args, kwargs):
+    comp._emit(ir.Op(target=thread, name="finish", args=[], exc={}, dst=None))
+    return SK(NONE, None)
+  c.call_function(SF(node=driver(main_src, "consumer_main"), closure={"thread_finished": SI(thread_finished)}, qualname="scenario.consumer_main", globs={}),
+                  [SP(obj), SO(task_event), SO(fabric_event), SP(ld), SO(thread)], {})
+  sc.programs.append(c.finish())
+  outer = ao.ActiveObject._ActiveObject__post_event
+  node, line0 = nested_def(outer, "post_event_thread_runner")
+  for i in range(sources):
+    c = Compiler(sc, timer_tids[i], "timer%d" % i)
+    sf = SF(node=node, closure={"self": SP(obj)}, qualname="miros.activeobject.ActiveObject.__post_event.<locals>.post_event_thread_runner",
+            globs=outer.__globals__, defcls=ao.ActiveObject)
+    c.call_function(sf, [specs[i], SK(1 if deferred else 0, deferred), SK(0, 0)], {})
+    sc.programs.append(c.finish())
+  sc.info = {"action": action, "handler_stop": handler_stop, "timer_tids": timer_tids, "sources": sources, "pending": pending, "capacity": capacity,
+             "times": times, "deferred": deferred, "other_source": other_source, "flags": [f.name for f in flags]}
+  return sc
